@@ -86,13 +86,13 @@ Ltac unfold_all :=
     grs80_a, grs80_f, q_three_halves, Rsqr, Q2R; simpl Qnum; simpl Qden; cbv zeta.
 
 (* positivity on the whole band (plain interval arithmetic in two variables) *)
-Lemma band_positive phi h : 0 < phi <= 3/2 -> -100000 <= h <= 100000 ->
+Lemma band_positive phi h : 0 < phi <= 157/100 -> -100000 <= h <= 100000 ->
   0 < geo_p grs80_a grs80_f phi h /\ 0 < geo_z grs80_a grs80_f phi h /\ ~ is_pole grs80_a (geo_p grs80_a grs80_f phi h) 0.
 Proof.
   intros Hphi Hh.
   assert (Hp : 1 < geo_p grs80_a grs80_f phi h) by (unfold_all; interval).
   assert (Hs : 0 < sin phi).
-  { apply sin_gt_0; [lra|]. assert (3 / 2 < PI) by interval. lra. }
+  { apply sin_gt_0; [lra|]. assert (157 / 100 < PI) by interval. lra. }
   assert (Hk : 1 < (1 - grs80_f)² * (grs80_a / sqrt ((cos phi)² + (1 - grs80_f)² * (sin phi)²)) + h)
     by (unfold_all; interval).
   split; [lra|]. split.
